@@ -5,6 +5,7 @@ import (
 	"go/ast"
 	"go/token"
 	"go/types"
+	"os"
 	"sort"
 	"strings"
 
@@ -69,6 +70,62 @@ func ruleExtractorLocks(c *core.Ctx) {
 	pkg := c.Prog.Pkg("pdf")
 	nAcc := 0
 	c.Floor("C18-R1", 4)
+	// helpers that run under the caller's lock: unexported functions of the
+	// package that touch cache/wip, never lock or unlock Extractor.mu
+	// themselves, and are called only from places where the lock is held (or
+	// from other such helpers).  Inside them the lock counts as held
+	// throughout; calling them while the lock is held is not "calling out".
+	type lockInfo struct {
+		fn  *core.Func
+		st  *core.LockState
+		acc []*core.V
+	}
+	infos := map[*types.Func]*lockInfo{}
+	for _, fn := range c.Prog.Funcs(pkg) {
+		if fn.Decl.Body == nil || c.Prog.IsTestFile(fn.Decl.Pos()) {
+			continue
+		}
+		g := fn.Graph()
+		var acc []*core.V
+		acc = append(acc, extractorAccesses(g, "cache")...)
+		acc = append(acc, extractorAccesses(g, "wip")...)
+		lo := &core.LockOps{Info: fn.Info(), IsMutex: core.MutexField(fn.Info(), "pdf", "Extractor", "mu")}
+		infos[fn.Obj.Origin()] = &lockInfo{fn, lo.Analyze(g), acc}
+	}
+	heldHelper := map[*types.Func]bool{}
+	for obj, li := range infos {
+		if !obj.Exported() && len(li.acc) > 0 && len(li.st.Locks) == 0 && len(li.st.Unlocks) == 0 {
+			heldHelper[obj] = true
+		}
+	}
+	for changed := true; changed; {
+		changed = false
+		for h := range heldHelper {
+			callers := 0
+			ok := true
+			for obj, li := range infos {
+				g := li.fn.Graph()
+				for _, v := range g.Vs {
+					if v.AST == nil {
+						continue
+					}
+					for _, cs := range core.CallsIn(li.fn.Info(), v.AST, false) {
+						if cs.Fn == nil || cs.Fn.Origin() != h {
+							continue
+						}
+						callers++
+						if !(li.st.HeldAt[v] || heldHelper[obj]) {
+							ok = false
+						}
+					}
+				}
+			}
+			if callers == 0 || !ok {
+				delete(heldHelper, h)
+				changed = true
+			}
+		}
+	}
 	for _, fn := range c.Prog.Funcs(pkg) {
 		fn := fn
 		g := fn.Graph()
@@ -80,6 +137,12 @@ func ruleExtractorLocks(c *core.Ctx) {
 		st := lo.Analyze(g)
 		if len(acc) == 0 && len(st.Locks) == 0 {
 			continue
+		}
+		if heldHelper[fn.Obj.Origin()] {
+			// the caller's lock covers the whole body
+			for _, v := range g.Vs {
+				st.HeldAt[v] = true
+			}
 		}
 		if fn.Key == "pdf.NewExtractor" {
 			c.Check("C18-R1", fn.Key, "the constructor initialises the maps before the Extractor is shared", func(o *core.Ob) {
@@ -145,6 +208,10 @@ func ruleExtractorLocks(c *core.Ctx) {
 						case key == "":
 							o.FailAt(fn.Site(x, ""), "call through a function value (%s) while the lock is held", core.ExprStr(x.Fun))
 						default:
+							if f := core.Callee(info, x); f != nil && heldHelper[f.Origin()] {
+								// a helper that runs under this lock (checked as such itself)
+								return true
+							}
 							o.FailAt(fn.Site(x, ""), "call to %s while the lock is held", key)
 						}
 					}
@@ -607,12 +674,26 @@ func rulePublication(c *core.Ctx) {
 				o.FailAt(fn.Site(st.Stmt, ""), "the view is stored under %s without the miss edge of a lookup of %s: a value another goroutine already published would be overwritten", core.ExprStr(st.Index), core.ExprStr(st.Index))
 			}
 		}
+		if os.Getenv("PDFVERIF_DEBUG_C18") != "" {
+			for _, v := range g.Vs {
+				if v.AST != nil {
+					fmt.Fprintf(os.Stderr, "V %T %s\n", v.AST, c.Prog.Src(v.AST))
+				}
+			}
+		}
 		// hit edges adopt
 		for _, lk := range looks {
 			adopted := false
 			for _, v := range g.Vs {
-				if as, ok := v.AST.(*ast.AssignStmt); ok && len(as.Rhs) == 1 && core.Mentions(info, as.Rhs[0], lk.Val) && v != lk.V {
-					if okEdgeGuard(g, v, lk.Ok, true) {
+				if as, ok := v.AST.(*ast.AssignStmt); ok && v != lk.V {
+					mentions := false
+					for _, r := range as.Rhs {
+						if core.Mentions(info, r, lk.Val) {
+							mentions = true
+						}
+					}
+					// (two copies of a folded-in helper share their locals: the lookup that reaches this use must be lk)
+					if mentions && okEdgeGuard(g, v, lk.Ok, true) && g.PathExists(lk.V, v, nil) {
 						adopted = true
 					}
 				}
@@ -1456,6 +1537,18 @@ func ruleNoForeignAppend(c *core.Ctx, rule string, floor int, pkgs ...string) {
 				n++
 				o.Count(1)
 				lhs := assigned[call]
+				if lhs != nil && c.Prog.Src(lhs) != c.Prog.Src(sel) {
+					// tmp := append(x.f, ...); x.f = tmp  (the very next statement)
+					if lobj := core.ObjOf(info, lhs); lobj != nil {
+						g := fn.Graph()
+						if v := g.VertexOf(call); v != nil && len(v.Succs) == 1 {
+							if as2, isAs := v.Succs[0].To.AST.(*ast.AssignStmt); isAs && len(as2.Lhs) == 1 && len(as2.Rhs) == 1 && as2.Tok == token.ASSIGN &&
+								c.Prog.Src(as2.Lhs[0]) == c.Prog.Src(sel) && core.ObjOf(info, as2.Rhs[0]) == lobj {
+								return true
+							}
+						}
+					}
+				}
 				if lhs == nil || c.Prog.Src(lhs) != c.Prog.Src(sel) {
 					where := "used as a value"
 					if lhs != nil {
